@@ -47,6 +47,18 @@ case "$PROP" in C10|C19)
   done
   export VERIF_MINPROG="$BUILD/bin/min-$TAG-";;
 esac
+# C17's fresh-process scripts run in a child built WITHOUT the race detector: only there does the Go runtime notice
+# that every goroutine is blocked for good ("all goroutines are asleep"), which turns a registry call that never
+# returns into a deterministic, clock-free verdict
+if [ "$PROP" = C17 ]; then
+  ( cd "$HERE/harness" && go build "${MODARGS[@]}" -tags verif -o "$BUILD/bin/vcheck-$TAG" ./cmd/vcheck ) >> "$BUILD/build-$TAG$RACE.log" 2>&1
+  if [ $? -ne 0 ]; then
+    cat "$BUILD/build-$TAG$RACE.log"
+    echo "INCONCLUSIVE property=$PROP reason=harness-build-failed-against-$REPO"
+    exit 2
+  fi
+  export VERIF_PLAIN_EXE="$BUILD/bin/vcheck-$TAG"
+fi
 if [ "${1:-}" = "--replay" ]; then
   exec "$BIN" -prop "$PROP" -replay "${2:?replay file}"
 fi
